@@ -56,6 +56,40 @@ def validate_pulp(_):
     return out
 
 
+def two_calls_item(args):
+    """one algorithm object aggregates dataset A, then dataset B; the scores of BOTH consensuses are read afterwards (in the
+    given order) and each must be the true score of its own rankings: a feature / score store shared between the results of
+    one algorithm object shows here and nowhere in a single call"""
+    cfg, lvA, lvB, names, first = args
+    from vf import shapes
+    sweep.install()
+    out = []
+    dsA, dsB = shapes.build(lvA, names), shapes.build(lvB, names)
+    B, T = fork.scheme_vars()
+    sc = fork.make_scheme(B, T)
+    ex = fork.Explorer(fork.valid_scheme(B, T), max_paths=int(2e5))
+
+    def path(ctx):
+        log = []
+        alg, _ = sweep.make_config(cfg, log)
+        oA = sweep.observe(ctx, cfg, lvA, names, True, B, T, sc, dsA, alg=alg)
+        oB = sweep.observe(ctx, cfg, lvB, names, True, B, T, sc, dsB, alg=alg)
+        if oA.exc is not None or oB.exc is not None:
+            return            # refusals / failures of single calls are the sweep's business
+        for o, which in ((oA, "first"), (oB, "second")) if first == "A" else ((oB, "second"), (oA, "first")):
+            k = len(out)
+            sweep.chk_reported(o, out)
+            for pl in out[k:]:
+                pl["two_calls"] = {"A": shapes.raw_json(lvA, names), "B": shapes.raw_json(lvB, names), "read_first": first, "failing": which}
+                pl["what"] = f"{cfg}: same algorithm object on two datasets, scores read afterwards ({first} first): the {which} consensus: " + pl["what"]
+                pl["signature"] = dict(pl["signature"], history="two calls")
+            if len(out) > k:
+                return
+    ex.explore(path)
+    STATS.sample({"config": cfg, "same algorithm object on": [shapes.raw_json(lvA, names), shapes.raw_json(lvB, names)], "scores read": first + " first", "scheme": "12 symbolic reals"})
+    return out
+
+
 def run(run):
     sweep.install()
     cfgs = list(sweep.ALL_CONFIGS)
@@ -82,12 +116,52 @@ def run(run):
     items = sweep.make_items(run, cfgs, ["reported"], light=light, heavy=heavy)
     items += sweep.history_items(run, [c for c in cfgs if c not in sweep.HEAVY or run.thorough], ["reported"], 4 if run.thorough else 2)
     run.pmap("sweep.run_item", sweep.run_item, sweep.order_items(items), chunksize=1)
+    import random
+    rnd = random.Random(run.seed + 3)
+    pool = sweep.dataset_pool(3, 2)
+    tc = []
+    for cfg in ["Borda", "Copeland", "PickAPerm", "KwikSortRandom", "ExactPulp", "ExactCplex(opt)", "ParCons", "ParCons(1,Copeland)", "BioCo", "BioConsert[Copeland]"]:
+        for i in range((4 if run.thorough else 2) if cfg not in sweep.HEAVY else 1):
+            a, b = rnd.choice(pool), rnd.choice(pool)
+            if cfg == "PickAPerm":
+                a, b = tuple(r for r in a if -1 not in r) or ((0, 1, 2),), tuple(r for r in b if -1 not in r) or ((2, 1, 0),)
+            tc.append((cfg, a, b, sweep.NAMINGS[3][i % 3], "AB"[i % 2]))
+        tc.append((cfg, ((0, 1, 2), (0, 1, 2)), ((2, 1, 0), (0, 0, 1)), [1, 2, 3], "B"))
+    run.bounds["same algorithm object on two datasets, scores read afterwards"] = len(tc)
+    run.pmap("two_calls", two_calls_item, tc, chunksize=1)
     run.part("validate_engine_f", lambda: sweep.validate_engine_f(run, 40 if run.thorough else 14))
-    run.extra["work_items"] = len(items)
+    run.extra["work_items"] = len(items) + len(tc)
     run.extra["stubs"] = sweep.install()
 
 
+def replay_two_calls(p):
+    from corankco.dataset import Dataset
+    from corankco.scoringscheme import ScoringScheme
+    from vf import shapes
+    sweep.install()
+    tc = p["two_calls"]
+    sc = ScoringScheme([[float(x) for x in v] for v in p["scheme"]])
+    standins.PINNED[:] = [c[1] for c in p.get("choices", [])]
+    alg, _ = sweep.make_config(p["config"], [])
+    if p["config"] in ("ExactPulp", "Exact(opt,nocplex)", "ParCons(nocplex)"):
+        standins.uninstall_pulp()
+    res = {}
+    for k in ("A", "B"):
+        ds = Dataset.from_raw_list(shapes.from_json(tc[k]))
+        res[k] = alg.compute_consensus_rankings(ds, sc, True)
+    for k in (("A", "B") if tc["read_first"] == "A" else ("B", "A")):
+        names, lvs = sweep.concrete_levels({"rankings": tc[k]})
+        rep = res[k].kemeny_score
+        for r in res[k].consensus_rankings:
+            t = sweep.cscore(r, names, lvs, sc)
+            if rep is None or abs(rep - t) > 1e-6:
+                return True, f"consensus of dataset {k} reports {rep} but {r} scores {t}"
+    return False, "both consensuses report their own true score"
+
+
 def replay(p):
+    if "two_calls" in p:
+        return replay_two_calls(p)
     if "cost" in p or p["signature"]["site"] in ("_bio_consert",):
         return bk.replay_kernel(p)
     return sweep.replay(p)
